@@ -276,6 +276,8 @@ func (o *Optimizer) OptimizeStatements(stmts []ast.Statement) []ast.Statement {
 			optimized := &ast.ReturnStatement{
 				Value: o.OptimizeExpression(s.Value),
 			}
+			// Keep the HTTP status of `> value :: 201`
+			optimized.Status = s.Status
 			result = append(result, optimized)
 			reachedReturn = true
 
